@@ -494,6 +494,7 @@ pub fn check(case: &Case) -> Verdict {
             }
         }
     }
+    info.class_if(pat.patterns.iter().any(|p| p.contains(['\r', '\n', '\0'])), "raw_control_byte_in_accepted_pattern");
     info.class_if(pat.word, "word");
     info.class_if(pat.whole_line, "whole_line");
     info.class_if(pat.case != CaseMode::Sensitive, "case_insensitive_or_smart");
@@ -573,7 +574,18 @@ fn variants(p: &str) -> Vec<PatCfg> {
 pub fn gen_case(t: &mut Tape) -> Case {
     let mut o = ReOpts::line_mode();
     o.allow_literal_newline = t.chance(1, 6);
-    let pat = super::c01::gen_patcfg(t, &o);
+    let mut pat = super::c01::gen_patcfg(t, &o);
+    if t.chance(1, 6) {
+        // a raw terminator byte inside a pattern (not an escape): plain-literal
+        // patterns and -F take the builder's literal paths, which have their own
+        // terminator test
+        let raw = *t.pick(&["\r", "\n", "\0", "\r\n"]);
+        let i = t.below(pat.patterns.len());
+        let p = &mut pat.patterns[i];
+        let cuts: Vec<usize> = p.char_indices().map(|(k, _)| k).chain(std::iter::once(p.len())).collect();
+        let at = cuts[t.below(cuts.len())];
+        p.insert_str(at, raw);
+    }
     let ci = pat.case == CaseMode::Insensitive;
     let hirs: Vec<_> = pat
         .patterns
